@@ -427,11 +427,11 @@ def legal_py_reader(rng, streams):
 # Execution
 # ------------------------------------------------------------------------------------------
 
-def run_py_writer(model, proto, pyvals, ops):
+def run_py_writer(model, proto, pyvals, ops, fmt="binary"):
     """Returns index of the first op that raised (None if none) and the exception."""
     sink = P.SimSink()
     try:
-        w = model.cls(proto, "binary", "Writer")(sink)
+        w = model.cls(proto, fmt, "Writer")(sink if fmt == "binary" else io.StringIO())
     except Exception as e:  # noqa
         return -1, e
     meths = model.step_methods(w, "write_")
@@ -485,9 +485,9 @@ def run_py_writer_with_failed_call(model, proto, pyvals, ops, fmt="binary"):
     return "closed", "", acked, out
 
 
-def run_py_reader(model, proto, data, ops):
+def run_py_reader(model, proto, data, ops, fmt="binary"):
     try:
-        r = model.cls(proto, "binary", "Reader")(io.BytesIO(data))
+        r = model.cls(proto, fmt, "Reader")(io.BytesIO(data) if fmt == "binary" else io.StringIO(data.decode("utf-8")))
     except Exception as e:  # noqa
         return -1, e
     meths = model.step_methods(r, "read_")
@@ -582,6 +582,7 @@ def model_task(task, ybin, root):
             counts = [len(v) if s else 0 for v, s in zip(vals, streams)]
             data = codec.encode_stream(proto, ns, model.schema(proto), vals)
             pyvals = P.read_python_values(model, proto, data)
+            ndraw = codec.encode_ndjson(proto, ns, model.schema(proto), vals).encode("utf-8")
             # ---- python writer / reader
             for h in range(H):
                 hr = pr.fork("pw", h)
@@ -590,27 +591,29 @@ def model_task(task, ybin, root):
                 else:
                     ops, mk = mutate(hr, legal_py_writer(hr, streams), n, lambda r: ["W", r.randrange(n)] if r.chance(0.8) else ["C"])
                 exp = py_writer_model(streams, ops)
-                got, exc = run_py_writer(model, proto, pyvals, ops)
+                pfmt = "ndjson" if hr.fork("fmt").chance(0.35) else "binary"       # the state machine lives in the base classes: every format has to obey it
+                stats["py_histories_" + pfmt] = stats.get("py_histories_" + pfmt, 0) + 2
+                got, exc = run_py_writer(model, proto, pyvals, ops, pfmt)
                 stats["runs"] = stats.get("runs", 0) + 1
                 stats["py_writer_" + ("legal" if exp is None else "illegal")] = stats.get("py_writer_" + ("legal" if exp is None else "illegal"), 0) + 1
                 stats["mut_" + mk] = stats.get("mut_" + mk, 0) + 1
                 why = judge(exp, got, exc, ops, "python writer")
                 if why:
                     viols.append(({"class": "step_order_not_enforced" if (exp is not None and (got is None or got > exp)) else "legal_history_rejected", "api": "python_writer"},
-                                  doc(model, proto, task, "python_writer", ops, counts, why)))
+                                  dict(doc(model, proto, task, "python_writer", ops, counts, why), format=pfmt)))
                 if h % 2 == 1:
                     ops, mk2 = until_close(guided(hr.fork("r"), draw_py_reader(streams), lambda o: py_reader_model(streams, counts, o), lambda o: o[0] == "C", streams)), "guided"
                 else:
                     ops, mk2 = mutate(hr.fork("r"), legal_py_reader(hr.fork("r"), streams), n, lambda r: ["R", r.randrange(n)] if r.chance(0.6) else (["D"] if r.chance(0.4) else (["A"] if r.chance(0.5) else ["C"])))
                 stats["mut_" + mk2] = stats.get("mut_" + mk2, 0) + 1
                 exp = py_reader_model(streams, counts, ops)
-                got, exc = run_py_reader(model, proto, data, ops)
+                got, exc = run_py_reader(model, proto, data if pfmt == "binary" else ndraw, ops, pfmt)
                 stats["runs"] += 1
                 stats["py_reader_" + ("legal" if exp is None else "illegal")] = stats.get("py_reader_" + ("legal" if exp is None else "illegal"), 0) + 1
                 why = judge(exp, got, exc, ops, "python reader")
                 if why:
                     viols.append(({"class": "step_order_not_enforced" if (exp is not None and (got is None or got > exp)) else "legal_history_rejected", "api": "python_reader"},
-                                  doc(model, proto, task, "python_reader", ops, counts, why)))
+                                  dict(doc(model, proto, task, "python_reader", ops, counts, why), format=pfmt)))
             # a call whose *implementation* fails (a value that cannot be serialized) in the middle of a legal history;
             # the caller then tries to go back to the stream before it, retries with a good value and completes the
             # protocol.  Whatever the writer makes of the failed call: if it lets the history run to a successful
@@ -675,7 +678,9 @@ def model_task(task, ybin, root):
                     stats["mut_" + mk] = stats.get("mut_" + mk, 0) + 1
                     ops = [o for o in ops if not (o[0] in ("WB", "E") and not streams[o[1]])]   # the harness has no batch/End call for non-stream steps
                     exp = cpp_writer_model(streams, ops)
-                    runs.append({"proto": proto.name, "op": "script", "input": 0, "script": [["mkW", "binary"]] + ops})
+                    cfmt = "ndjson" if hr.fork("fmt").chance(0.35) else "binary"
+                    stats["cpp_histories_" + cfmt] = stats.get("cpp_histories_" + cfmt, 0) + 2
+                    runs.append({"proto": proto.name, "op": "script", "input": 0, "script": [["mkW", cfmt]] + ops, "fmt": cfmt})
                     meta.append(("cpp_writer", ops, exp, None))
                     if h % 2 == 1:
                         ops, mk = until_close(guided(hr.fork("r"), draw_cpp_reader(streams), cpp_reader_first_illegal(streams, counts), lambda o: o[0] == "CR", streams)), "guided"
@@ -684,10 +689,10 @@ def model_task(task, ybin, root):
                     stats["mut_" + mk] = stats.get("mut_" + mk, 0) + 1
                     ops = [o for o in ops if not (o[0] == "RB" and not streams[o[1]])]
                     verdicts, expect = cpp_reader_model(streams, counts, ops)
-                    runs.append({"proto": proto.name, "op": "script", "input": 0, "script": [["mkR", "binary"]] + ops})
+                    runs.append({"proto": proto.name, "op": "script", "input": 0 if cfmt == "binary" else 1, "script": [["mkR", cfmt]] + ops, "fmt": cfmt})
                     meta.append(("cpp_reader", ops, verdicts, expect))
-                results = cm.run_plan([data], runs, timeout=180)
-                for res, (api, ops, exp, expect) in zip(results, meta):
+                results = cm.run_plan([data, ndraw], runs, timeout=180)
+                for res, run_, (api, ops, exp, expect) in zip(results, runs, meta):
                     stats["runs"] += 1
                     legal = (exp is None) if api == "cpp_writer" else all(v is not False for v in exp)
                     stats[api + ("_legal" if legal else "_illegal")] = stats.get(api + ("_legal" if legal else "_illegal"), 0) + 1
@@ -696,7 +701,7 @@ def model_task(task, ybin, root):
                     if res is None:
                         continue
                     if res.get("crashed"):
-                        viols.append(({"class": "crashed_on_call_history", "api": api}, doc(model, proto, task, api, ops, counts, res.get("stderr", "")[-300:])))
+                        viols.append(({"class": "crashed_on_call_history", "api": api}, dict(doc(model, proto, task, api, ops, counts, res.get("stderr", "")[-300:]), format=run_["fmt"])))
                         continue
                     calls = res.get("calls", [])[1:]     # drop the constructor call
                     if api == "cpp_writer":
@@ -709,7 +714,7 @@ def model_task(task, ybin, root):
                     else:
                         cls, why = judge_verdicts(exp, expect, calls, ops, "cpp reader")
                     if why:
-                        viols.append(({"class": cls, "api": api}, doc(model, proto, task, api, ops, counts, why)))
+                        viols.append(({"class": cls, "api": api}, dict(doc(model, proto, task, api, ops, counts, why), format=run_["fmt"])))
             cases.append((["c07", i, proto.name, "".join("S" if s else "v" for s in streams)], True))
     finally:
         model.close()
@@ -741,12 +746,13 @@ def replay_doc(d, ybin, root):
         if api == "python_writer":
             pyvals = P.read_python_values(model, proto, data)
             exp = py_writer_model(streams, ops)
-            got, exc = run_py_writer(model, proto, pyvals, ops)
+            got, exc = run_py_writer(model, proto, pyvals, ops, d.get("format", "binary"))
             why = judge(exp, got, exc, ops, "python writer")
             return bool(why), why
         if api == "python_reader":
             exp = py_reader_model(streams, counts, ops)
-            got, exc = run_py_reader(model, proto, data, ops)
+            rfmt = d.get("format", "binary")
+            got, exc = run_py_reader(model, proto, data if rfmt == "binary" else codec.encode_ndjson(proto, ns, model.schema(proto), vals).encode("utf-8"), ops, rfmt)
             why = judge(exp, got, exc, ops, "python reader")
             return bool(why), why
         if api == "python_reader_cut":
@@ -768,11 +774,12 @@ def replay_doc(d, ybin, root):
         cm = C.CppModel(model.dir)
         if api == "cpp_writer":
             exp = cpp_writer_model(streams, ops)
-            script = [["mkW", "binary"]] + ops
+            script = [["mkW", d.get("format", "binary")]] + ops
         else:
             verdicts, expect = cpp_reader_model(streams, counts, ops)
-            script = [["mkR", "binary"]] + ops
-        res = cm.run_plan([data], [{"proto": proto.name, "op": "script", "input": 0, "script": script}])[0]
+            script = [["mkR", d.get("format", "binary")]] + ops
+        ndraw = codec.encode_ndjson(proto, ns, model.schema(proto), vals).encode("utf-8")
+        res = cm.run_plan([data, ndraw], [{"proto": proto.name, "op": "script", "input": 0 if d.get("format", "binary") == "binary" else 1, "script": script}])[0]
         calls = res.get("calls", [])[1:]
         if api == "cpp_writer":
             got = next((j for j, c in enumerate(calls) if c["r"] == "exc"), None)
